@@ -203,6 +203,17 @@ func init() {
 			{Dir: "gcs", Name: "ZZ_C13_members", Variant: "n<=3,allP", Tiers: "thorough", Reach: []string{"end"}, Tweak: gcsCfg("maxn", 3, "allp", 1)},
 		},
 	})
+	builderCfg := func(kv ...interface{}) func(c *sym.HarnessCfg, tier string) {
+		return func(c *sym.HarnessCfg, tier string) {
+			c.Stubs = map[string]string{
+				"github.com/gcash/bchutil/gcs.BuildGCSFilter":      "zzStubBuild",
+				"(*github.com/gcash/bchd/wire.MsgBlock).BlockHash": "zzStubBlockHash",
+			}
+			for i := 0; i+1 < len(kv); i += 2 {
+				c.Params[kv[i].(string)] = kv[i+1].(int)
+			}
+		}
+	}
 	reg(&PropSpec{
 		ID: "C14",
 		Harnesses: []HarnessSpec{
@@ -213,6 +224,8 @@ func init() {
 			{Dir: "gcs", Name: "ZZ_C14_encoding", Variant: "n<=2", Reach: []string{"end"}, Tweak: gcsCfg("maxn", 2)},
 			{Dir: "gcs", Name: "ZZ_C14_encoding", Variant: "n=1,P=0,unary runs<=70", Reach: []string{"end"}, Tweak: gcsCfg("maxn", 1, "onlyp", 0, "maxq", 70)},
 			{Dir: "gcs", Name: "ZZ_C14_serialise", Variant: "bytes<=3", Reach: []string{"end", "rejected"}, Tweak: params(false, "maxbytes", 3)},
+			{Dir: "builder", Name: "ZZ_C14_builder", Variant: "tx<=2,in<=2,out<=2,script<=1", Reach: []string{"end"}, Tweak: builderCfg("maxtx", 2, "maxin", 2, "maxout", 2, "maxscript", 1)},
+			{Dir: "builder", Name: "ZZ_C14_filterhash", Reach: []string{"end"}, Tweak: params(false, "maxbytes", 2)},
 			{Dir: "gcs", Name: "ZZ_C14_encoding", Variant: "n<=3,allP", Tiers: "thorough", Reach: []string{"end"}, Tweak: gcsCfg("maxn", 3, "allp", 1)},
 			{Dir: "gcs", Name: "ZZ_C14_serialise", Variant: "bytes<=8", Tiers: "thorough", Reach: []string{"end"}, Tweak: params(false, "maxbytes", 8)},
 		},
@@ -443,8 +456,9 @@ func init() {
 		"64x64-bit products of two symbolic operands are a commutative uninterpreted function with the range lemma (product of bounded factors is bounded); fastReduction and math/bits.Mul64 are compared over the same four partial products",
 		"SipHash uninterpreted; fastReduction contract as in C13 for the encoding harness",
 		"CompactSize / bytes.Buffer / wire.ReadVarInt are executed for real (non-blocking select takes its default arm)",
-	}, []string{"the block-filter builder (gcs/builder): entry set, key derivation, filter hash/header", "N above the bound in the encoding harness"},
-		"quick: all (v,NM) for fastReduction; encoding with N<=2, P list, M symbolic; serialisation with <=3 filter bytes, all four CompactSize classes of N, P in 0..33", "thorough: N<=3 all P; <=8 filter bytes")
+		"builder harness: gcs.BuildGCSFilter is a recording stub (what reaches the encoder is compared with the specified set, key, P, M; the encoder itself is covered by the gcs harnesses), MsgBlock.BlockHash returns an arbitrary hash; natively the real encoder runs and the result is compared with the encoder applied to the specified set",
+	}, []string{"blocks with more than 2 transactions / 2 inputs / 2 outputs per transaction or scripts longer than 1 byte in the builder harness; the builder's With*/Set* chain other than what BuildBasicFilter/BuildMempoolFilter use", "N above the bound in the encoding harness"},
+		"quick: all (v,NM) for fastReduction; encoding with N<=2, P list, M symbolic; serialisation with <=3 filter bytes, all four CompactSize classes of N, P in 0..33; builder (basic and mempool) on <=2 transactions x <=2 inputs (symbolic outpoints) x <=2 outputs (nil / empty / 1-byte scripts); filter hash and header on filters of <=2 bytes", "thorough: N<=3 all P; <=8 filter bytes")
 	meta("C17", []string{
 		"float64 division by a constant is relaxed to |fma(q,c,-a)| <= RTP(|q|*c*2^-53) and |q|<=|a| (a sound superset of the correctly rounded quotient)",
 		"monotonicity of the IEEE product f*1e8 in f is assumed (only the rounding step is proved monotone)",
